@@ -20,8 +20,11 @@
 //             the real vita::dss (oracle only, no model), one proxy on the
 //             training and one on the validation side: E,k0,k1 evaluate
 //             through the training proxy and directly, U,k0,k1 the same on
-//             the validation side; G,<generation> dss.shake(g); Q dss.close(0)
-//             output e=<proxy>/<called>|<direct>, u=<...>, g=<0|1>
+//             the validation side; N,<run> dss.init(run) (nothing is initialised
+//             before the first N: the proxies can be consulted on the full data
+//             first); G,<generation> dss.shake(g); Q dss.close(run); R both
+//             proxies save their cache and load it back
+//             output e=<proxy>/<called>|<direct>, u=<...>, g=<0|1>, r=<ok>
 // keys and fitness components are hexadecimal 64-bit patterns.
 // output: one line, one token per F / S / E op, then the dump of the table:
 //   f=<w,w|->   s=<ok>|<dump>|<dump>   e=<w,w|->/<evaluator called 0|1>
@@ -243,7 +246,7 @@ static void dss_script(const std::vector<std::string> &w, std::ostream &out)
   evaluator_proxy<ind, data_evaluator> proxy_t(direct, bits);
   evaluator_proxy<ind, data_evaluator> proxy_v(direct_v, bits);
   dss d(prob, proxy_t, proxy_v);
-  d.init(0);
+  bool initialised(false);     // shake / close before the first init are skipped (BADOP)
 
   for (std::size_t n(5); n < w.size(); ++n)
   {
@@ -265,10 +268,23 @@ static void dss_script(const std::vector<std::string> &w, std::ostream &out)
       out << "u=" << show_fit(f) << '/' << (proxy_v.eva_.calls - before) << '|'
           << show_fit(direct_v(x)) << ' ';
     }
-    else if (o == 'G')
+    else if (o == 'N')
+    {
+      d.init(static_cast<unsigned>(std::stoul(p[1])));     // start of run p[1]
+      initialised = true;
+    }
+    else if (o == 'R')
+    {
+      // both caches restored from a saved stream (evaluator_proxy::save / load,
+      // what search::load does before the first run)
+      std::stringstream st, sv;
+      const bool ok(proxy_t.save(st) && proxy_v.save(sv) && proxy_t.load(st) && proxy_v.load(sv));
+      out << "r=" << ok << ' ';
+    }
+    else if (o == 'G' && initialised)
       out << "g=" << d.shake(static_cast<unsigned>(std::stoul(p[1]))) << ' ';
-    else if (o == 'Q')
-      d.close(0);
+    else if (o == 'Q' && initialised)
+      d.close(p.size() > 1 ? static_cast<unsigned>(std::stoul(p[1])) : 0);
     else
       out << "BADOP ";
   }
